@@ -131,6 +131,12 @@ func (fs *fsMutable) deleteNSEntry(p fuseops.InodeID, c string) error {
 	children := fs.readDirMap[p]
 	// Delete from parent read dir
 	delete(children, cLE.iNode)
+
+	// The node is no longer reachable from the namespace (there are no hard links):
+	// it may be released when the kernel forgets it.
+	cNode.lock.Lock()
+	cNode.attr.Nlink = 0
+	cNode.lock.Unlock()
 	return nil
 }
 
@@ -735,17 +741,9 @@ func getPathToBackingFile(iNode fuseops.InodeID) string {
 }
 
 func shouldDelete(n *nodeEntry) bool {
-	// LookupCount should be zero.
-	if n.attr.Mode.IsDir() {
-		if n.refCount == 0 {
-			return true
-		}
-	} else {
-		if n.refCount == 0 && n.attr.Nlink == 0 {
-			return true
-		}
-	}
-	return false
+	// LookupCount should be zero, and the node (file or directory) unlinked from the namespace:
+	// the kernel may forget an inode which is still linked, then look it up again.
+	return n.refCount == 0 && n.attr.Nlink == 0
 }
 
 type commitChans struct {
